@@ -123,13 +123,19 @@ func (l *Loop) Relisten(o Options) {
 
 // Send sends one chunk; a panic inside the library is captured.
 func (l *Loop) Send(b []byte) (err error, c engine.Caught) {
-	before := append([]byte(nil), b...)
-	c = engine.Catch(func() { err = l.Out.Send(b) })
-	if !c.Panicked && string(before) != string(b) {
+	// the sender's own buffer: handed to Send, and used for something else as
+	// soon as Send has returned (what every driver with a read buffer does);
+	// what the listener was handed and kept must not change with it
+	// (Overwritten)
+	buf := append([]byte(nil), b...)
+	c = engine.Catch(func() { err = l.Out.Send(buf) })
+	if !c.Panicked && string(buf) != string(b) {
 		// the bytes belong to the sender (who may send the same buffer again):
 		// reported through the same channel as a panic, with its own signature
-		c = engine.Caught{Panicked: true, Sig: "send:modifies-the-senders-bytes", Value: fmt.Sprintf("Send changed its argument from % X to % X", before, b)}
-		copy(b, before)
+		c = engine.Caught{Panicked: true, Sig: "send:modifies-the-senders-bytes", Value: fmt.Sprintf("Send changed its argument from % X to % X", b, buf)}
+	}
+	for i := range buf {
+		buf[i] = 0x55
 	}
 	return
 }
